@@ -1025,6 +1025,19 @@ def sp_solve_triangular(A, b, lower=False, trans=0):
     return _opaque_matrix("trisolve", b.shape)
 
 
+@model("scipy.linalg.solve")
+def sp_solve(A, b, **kw):
+    if ctx().concrete:
+        raise Unsupported("solve in the concrete cross-check")
+    if hasattr(A, "nf"):
+        from . import matalg
+        return matalg.solve(A, b)
+    return _opaque_matrix("solve", b.shape)
+
+
+MODELS["numpy.linalg.solve"] = sp_solve
+
+
 @model("inspect.isclass")
 def py_isclass(x):
     from .interp import ClassVal
